@@ -1386,6 +1386,21 @@ func (w *vfWorld) anyContract() *vfContract {
 	return all[w.rng.Intn(len(all))]
 }
 
+// idle lets seven weeks pass without any metric being written: every recorded data point moves
+// seven weeks into the past (two steps, to stay clear of the (date_created, stat) key).  The
+// reported values are the latest data points, however old.  Not a model step: the model keeps the
+// latest values only.
+func (w *vfWorld) idle() {
+	const d = 7 * 7 * 24 * 3600
+	if _, err := w.db.db.Exec(`UPDATE host_stats SET date_created=-date_created`); err != nil {
+		w.t.Fatal(err)
+	}
+	if _, err := w.db.db.Exec(`UPDATE host_stats SET date_created=(-date_created)-$1`, int64(d)); err != nil {
+		w.t.Fatal(err)
+	}
+	w.em.Count("op:idle-seven-weeks")
+}
+
 func (w *vfWorld) usageOp() {
 	c := w.anyContract()
 	switch r := w.rng.Intn(20); {
@@ -1443,6 +1458,9 @@ func (w *vfWorld) generate() {
 			continue
 		}
 		if rng.Intn(usageEvery) == 0 {
+			if w.mode == "C05" && rng.Intn(12) == 0 {
+				w.idle() // a long quiet period before the next metric update
+			}
 			w.usageOp()
 			continue
 		}
